@@ -299,7 +299,7 @@ def domain(pname, rng, method=None):
         v = r.choice(["g1", "g2", "grp", "apply-work-group-0", "x_y", "G", "7", "3", "10", "[1]", "abc", "one", "1.5", "0x", "1,2", "None", "True", "start-group-0", "", "a\tb", "x\u00a0y", "ü\u3000z"])
         return v, v
     if pname == "value":
-        v = r.choice([0, 1, 2, 3, 5, 7, 10, -1, -7])
+        v = r.choice([0, 1, 2, 3, 5, 7, 10, -1, -7, 2 ** 53 + 1, 10 ** 18 + 1, 10 ** 30])
         return v, str(v)
     raise KeyError(pname)
 
